@@ -91,58 +91,77 @@ theorem read_not_accepted (dest seq src : Nat) (isFirst ae : Bool) (r : Resp) :
   all_goals simp
 
 /-- an unsolicited fragment is confirmed exactly when it is accepted (start-up finished or no
-    objects) and asks for it — with its own sequence number and the UNS bit (`doUnsolicited`
-    emits `[0xD0 + seq, 0]`) -/
+    objects, and its objects parse) and asks for it — with its own sequence number and the UNS
+    bit (`doUnsolicited` emits `[0xD0 + seq, 0]`, `unsolicited_confirm_exactly_when`) -/
 theorem unsolicited_confirm_iff (ic : Bool) (last : Option UnsolKey) (r : Resp) :
-    (handleUnsolicited ic last r).confirm = true ↔ ((ic = true ∨ r.raw = []) ∧ r.ctrl.con = true) := by
+    (handleUnsolicited ic last r).confirm = true ↔
+      ((ic = true ∨ r.raw = []) ∧ r.objects.isSome = true ∧ r.ctrl.con = true) := by
   unfold handleUnsolicited
-  cases ic <;> cases hr : r.raw <;> simp [List.isEmpty] <;> split <;> simp
+  cases ic <;> cases hr : r.raw <;> cases ho : r.objects <;> simp [List.isEmpty] <;> split <;> simp
 
 /-- a repeated unsolicited fragment (same header, same objects) is confirmed but not delivered again -/
-theorem duplicate_unsolicited (ic : Bool) (r : Resp) (h : ic = true ∨ r.raw = []) :
+theorem duplicate_unsolicited (ic : Bool) (r : Resp) (h : ic = true ∨ r.raw = []) (ho : r.objects.isSome = true) :
     handleUnsolicited ic (some r.key) r = ⟨true, true, false, r.ctrl.con⟩ := by
   unfold handleUnsolicited
-  rcases h with h | h <;> simp [h, List.isEmpty]
+  have : r.objects.isNone = false := by cases hr : r.objects <;> simp_all
+  rcases h with h | h <;> simp [h, this, List.isEmpty]
 
-/-- a fragment that differs from the previous one in header or objects is not treated as a duplicate -/
+/-- a fragment that differs from the previous one in header or objects is not treated as a
+    duplicate: it is delivered -/
 theorem fresh_unsolicited_delivered (ic : Bool) (last : Option UnsolKey) (r : Resp) (h : ic = true ∨ r.raw = [])
-    (hne : last ≠ some r.key) : handleUnsolicited ic last r = ⟨true, false, r.objects.isSome, r.ctrl.con⟩ := by
+    (ho : r.objects.isSome = true) (hne : last ≠ some r.key) :
+    handleUnsolicited ic last r = ⟨true, false, true, r.ctrl.con⟩ := by
   unfold handleUnsolicited
-  rcases h with h | h <;> simp [h, hne, List.isEmpty]
+  have : r.objects.isNone = false := by cases hr : r.objects <;> simp_all
+  rcases h with h | h <;> simp [h, hne, this, List.isEmpty]
 
-/-- KNOWN FINDING D23: an accepted unsolicited fragment whose objects do not parse is confirmed
-    although nothing is delivered (the outstation will discard the events it carried) -/
-theorem unsolicited_unparsable_confirmed_counterexample :
+example :
+    let r : Resp := ⟨⟨true, true, true, true, 1⟩, true, 0, 0, [2, 1, 0x17, 1, 5, 0x81], some [⟨2, 1, 0x17, 1, 0, [5, 0x81]⟩]⟩
+    handleUnsolicited true none r = ⟨true, false, true, true⟩ := by decide
+
+/-- an unsolicited fragment whose objects do not parse is ignored altogether: not remembered as
+    the last fragment (`valid`), not delivered, not confirmed — whatever the start-up state and
+    the CON bit (finding D23, repaired: the unchanged code confirmed it, so that the outstation
+    discarded events that never reached the handler) -/
+theorem unsolicited_unparsable_ignored (ic : Bool) (last : Option UnsolKey) (r : Resp) (h : r.objects = none) :
+    handleUnsolicited ic last r = ⟨false, false, false, false⟩ := by
+  unfold handleUnsolicited
+  simp [h]
+
+/-- the former D23 witness: unknown group 99 with CON — now ignored -/
+example :
     let r : Resp := ⟨⟨true, true, true, true, 0⟩, true, 0, 0, [0x63, 0x01, 0x00, 0x00, 0x00, 0x01], none⟩
-    handleUnsolicited true none r = ⟨true, false, false, true⟩ := by decide
+    handleUnsolicited true none r = ⟨false, false, false, false⟩ := by decide
+
+/-- `confirmed_contents_delivered`: whatever is confirmed was delivered to the handler, now or (a
+    duplicate) by the identical previous fragment -/
+theorem unsolicited_confirmed_contents_delivered (ic : Bool) (last : Option UnsolKey) (r : Resp)
+    (h : (handleUnsolicited ic last r).confirm = true) :
+    r.objects.isSome = true ∧
+      ((handleUnsolicited ic last r).deliver = true ∨ (handleUnsolicited ic last r).duplicate = true) := by
+  have h' := (unsolicited_confirm_iff ic last r).1 h
+  refine ⟨h'.2.1, ?_⟩
+  unfold handleUnsolicited at h ⊢
+  by_cases h1 : (ic || r.raw.isEmpty) = true <;> by_cases h2 : r.objects.isNone = true <;>
+    by_cases h3 : last = some r.key <;> simp_all
 
 -- ------------------------------------------------------------------------------------------
 -- confirmation at the level of the session step
 -- ------------------------------------------------------------------------------------------
 
 /-
-Full statement (`confirm_exactly_when`): every accepted fragment with CON is confirmed exactly
-once with the same sequence number and UNS bit, and nothing else is confirmed.  It holds for
-READ tasks (`read_confirm_exactly_when`) and for unsolicited responses
-(`unsolicited_confirm_iff`); for non-READ tasks the unchanged code accepts a CON-flagged
-response and sends NO confirm (finding D8): `nonread_confirm_counterexample`.
+`confirm_exactly_when`: every accepted fragment with CON is confirmed exactly once, to its sender,
+with the same sequence number and UNS bit, and nothing else is confirmed.  Proved below for the
+fragment handler `onFragment` in EVERY session mode: READ tasks (`read_confirm_exactly_when`),
+non-READ tasks (`nonread_confirm_exactly_when`; finding D8 — a CON-flagged response to a non-READ
+task was accepted and never confirmed — is repaired in the library, the witness is now the
+regression `nonread_confirm_d8_regression` and `harness/corpus/C15/master_D8.ops`), unsolicited
+responses (`unsolicited_confirm_exactly_when`), and all of them together (`confirm_exactly_when`).
 -/
-
-/-- D8 witness: the master's DISABLE_UNSOLICITED (seq 0) is answered `E0 81 00 00` (FIR FIN CON):
-    the response is accepted (the task succeeds and the integrity poll goes out), no confirm is sent -/
-def d8State : MState :=
-  { assocs := [{ addr := 1024, cfg := {}, seq := 1 }], ring := [1024],
-    mode := .waitNonRead 1024 (.auto .disableUnsol 7) 0 21 5000 }
-
-theorem nonread_confirm_counterexample :
-    let res := Master.step d8State (.rx 1024 1 [0xE0, 0x81, 0x00, 0x00])
-    res.2 = [.taskSuccess 1024 .disableUnsolicited 21 0, .taskStart 1024 .startupIntegrity 1 1,
-             .tx 1024 [0xC1, 0x01, 0x3c, 0x02, 0x06, 0x3c, 0x03, 0x06, 0x3c, 0x04, 0x06, 0x3c, 0x01, 0x06]] ∧
-    confirmsOf res.2 = [] := by decide
 
 /-- READ tasks: the fragment handler emits exactly one confirm, with the fragment's sequence
     number and without the UNS bit, iff the fragment is accepted and has CON; otherwise none -/
-theorem read_confirm_exactly_when_partial (s : MState) (dest seq dl : Nat) (t : ReadTask) (isFirst : Bool)
+theorem read_confirm_exactly_when (s : MState) (dest seq dl : Nat) (t : ReadTask) (isFirst : Bool)
     (src : Nat) (frag : List Nat) (r : Resp) (hm : s.mode = .waitRead dest t seq isFirst dl)
     (hp : parseResponse frag = some r) (hu : r.unsol = false) :
     confirmsOf (Step.outs (onFragment (s, []) src frag)) =
@@ -150,5 +169,84 @@ theorem read_confirm_exactly_when_partial (s : MState) (dest seq dl : Nat) (t : 
        | .accept true _ => [(dest, 0xC0 + seq)]
        | _ => []) :=
   Proofs.Master.read_confirms s dest seq dl t isFirst src frag r hm hp hu
+
+/-- non-READ tasks: exactly one confirm (request's sequence number, no UNS bit, to the addressed
+    outstation) iff the response is accepted (`nonread_accept_iff`) and has CON; otherwise none —
+    whatever the task then does with the response (fail on its contents, complete, or send the
+    next request of a multi-step task) -/
+theorem nonread_confirm_exactly_when (s : MState) (dest seq fc0 dl : Nat) (t : NonReadTask) (src : Nat)
+    (frag : List Nat) (r : Resp) (hm : s.mode = .waitNonRead dest t seq fc0 dl)
+    (hp : parseResponse frag = some r) (hu : r.unsol = false) :
+    confirmsOf (Step.outs (onFragment (s, []) src frag)) =
+      (match validateNonRead dest seq src r with
+       | .accept => if r.ctrl.con then [(dest, 0xC0 + seq)] else []
+       | _ => []) :=
+  Proofs.Master.nonread_confirms s dest seq fc0 dl t src frag r hm hp hu
+
+example :
+    let s : MState := { assocs := [{ addr := 1024, cfg := {}, seq := 4 }], ring := [1024],
+                        mode := .waitNonRead 1024 (.restart 1 true) 3 13 5000 }
+    confirmsOf (Step.outs (onFragment (s, []) 1024 [0xE3, 129, 0, 0, 0x34, 0x01, 0x07, 0x01, 0x07, 0x00])) = [(1024, 0xC3)] := by
+  decide
+
+/-- unsolicited responses (`handle_unsolicited`, called from every session mode): exactly one
+    confirm with the fragment's own sequence number and the UNS bit, to its source, iff the
+    association exists and the decision (`unsolicited_confirm_iff`, taken after `process_iin`) says
+    so; otherwise none -/
+theorem unsolicited_confirm_exactly_when (a : Acc) (src : Nat) (r : Resp) :
+    confirmsOf (doUnsolicited a src r).2 = confirmsOf a.2 ++
+      (match a.1.getAssoc src with
+       | none => []
+       | some x => if (unsolDecision x r).confirm then [(src, 0xD0 + r.ctrl.seq)] else []) :=
+  Proofs.Master.doUnsolicited_confirms a src r
+
+/-- an unsolicited fragment that is not accepted (start-up not finished, or — D23 repaired — objects
+    that do not parse) leaves no trace: no delivery, no callback, no confirm, and it is not
+    remembered as the last fragment (so its retransmission is not taken for a duplicate) -/
+theorem unsolicited_not_accepted_no_trace (a : Acc) (src : Nat) (r : Resp) (x : Assoc) (hx : a.1.getAssoc src = some x)
+    (hv : (unsolDecision x r).valid = false) :
+    (doUnsolicited a src r).2 = a.2 ∧ ((doUnsolicited a src r).1.getAssoc src).map (·.lastUnsol) = some x.lastUnsol :=
+  ⟨Proofs.Master.doUnsolicited_invalid_outs a src r x hx hv, Proofs.Master.doUnsolicited_invalid_lastUnsol a src r x hx hv⟩
+
+/-- in particular for unparsable objects, in any start-up state -/
+theorem unsolicited_unparsable_no_trace (a : Acc) (src : Nat) (r : Resp) (x : Assoc) (hx : a.1.getAssoc src = some x)
+    (h : r.objects = none) :
+    (doUnsolicited a src r).2 = a.2 ∧ ((doUnsolicited a src r).1.getAssoc src).map (·.lastUnsol) = some x.lastUnsol :=
+  unsolicited_not_accepted_no_trace a src r x hx (by
+    unfold unsolDecision
+    rw [unsolicited_unparsable_ignored _ _ r h])
+
+example :
+    let a : Acc := ({ assocs := [{ addr := 1024, cfg := {}, integrityDone := true }], ring := [1024], mode := .idle none }, [])
+    (doUnsolicited a 1024 ⟨⟨true, true, true, true, 0⟩, true, 0, 0, [0x63, 0x01, 0x00, 0x00, 0x00, 0x01], none⟩).2 = [] := by
+  decide
+
+/-- `confirm_exactly_when`, full statement: for every state, source and parsed fragment the
+    confirms emitted by the fragment handler are exactly `expectedConfirms` — none when no session
+    runs; for an unsolicited fragment the unsolicited rule; for a solicited one the READ rule in a
+    READ wait, the non-READ rule in a non-READ wait, none when idle or in a link status check -/
+theorem confirm_exactly_when (s : MState) (src : Nat) (frag : List Nat) (r : Resp) (hp : parseResponse frag = some r) :
+    confirmsOf (Step.outs (onFragment (s, []) src frag)) = expectedConfirms s src r :=
+  Proofs.Master.confirm_exactly_when s src frag r hp
+
+/-- a fragment that does not parse as a response is never confirmed -/
+theorem unparsed_never_confirmed (s : MState) (src : Nat) (frag : List Nat) (hp : parseResponse frag = none) :
+    confirmsOf (Step.outs (onFragment (s, []) src frag)) = [] := by
+  unfold onFragment
+  cases hm : s.mode <;>
+    simp only [hp, Step.outs, Step.acc, Proofs.Master.finishRead_confirms, Proofs.Master.taskOnError_confirms] <;> rfl
+
+/-- regression for D8 (repaired): the master's DISABLE_UNSOLICITED (seq 0) is answered `E0 81 00 00`
+    (FIR FIN CON): the response is accepted and confirmed (`C0 00`), the task succeeds and the
+    integrity poll goes out.  Before the repair no confirm was sent. -/
+def d8State : MState :=
+  { assocs := [{ addr := 1024, cfg := {}, seq := 1 }], ring := [1024],
+    mode := .waitNonRead 1024 (.auto .disableUnsol 7) 0 21 5000 }
+
+theorem nonread_confirm_d8_regression :
+    let res := Master.step d8State (.rx 1024 1 [0xE0, 0x81, 0x00, 0x00])
+    res.2 = [.tx 1024 [0xC0, 0x00], .taskSuccess 1024 .disableUnsolicited 21 0, .taskStart 1024 .startupIntegrity 1 1,
+             .tx 1024 [0xC1, 0x01, 0x3c, 0x02, 0x06, 0x3c, 0x03, 0x06, 0x3c, 0x04, 0x06, 0x3c, 0x01, 0x06]] ∧
+    confirmsOf res.2 = [(1024, 0xC0)] := by decide
 
 end Dnp3.Props.C15
